@@ -9,7 +9,7 @@ From Coq Require Import Floats QArith Qcanon.
 From SC.Model Require Import Base Num NumF64 NumQ FloatIO Types Config Case Parser Items RuleFns Format
      Lexer Api Run64 Corr.
 From SC.Gen Require Import ConfigData.
-From SC.Proofs Require Import C13.
+From SC.Proofs Require Import C13 C13_EndToEnd.
 Local Open Scope Z_scope.
 
 (* one digit: the reader undoes the printer, whatever the letter case; the printer's alphabet *)
@@ -233,6 +233,30 @@ Theorem C13_examples :
   from_radix (F:=float) 16 (s "8000000000000000") = None.
 Proof. exact examples. Qed.
 
+(* END TO END, from the characters of the line to the value and its printed form: for every non-empty string ds of
+   digits 0-1 / 0-7 / 0-9, the TEXT `0b` ds / `0o` ds / `0x` ds (unbounded in ds, up to the reader's i64 guard stated by
+   from_radix) evaluates through the public entry point, in every language, to the number from_radix gives, of the
+   based number type, and prints as the based text.  (Hex literals with the letters a-f stay on the generator and on
+   the finite families: letters inside the literal wake up the text, decimal-notation and money regexes, see C13-K1.) *)
+Theorem C13_based_text_to_value : forall ck lang (k : bk) (ds : list N) (x : float),
+  ds <> [] -> forallb (dig_ok k) ds = true -> from_radix (radix_of k) ds = Some x ->
+  exists obs,
+    execute LX ck default_config lang (line_of k ds) = Ok {| er_status := true; er_lines := [Some obs] |} /\
+    lo_result obs = LOk (based_text k x) (AItem (INumber x (ty_of k))) /\
+    lo_tokens obs = [TNumber x (ty_of k)].
+Proof. exact based_execute. Qed.
+
+Theorem C13_based_text_to_value_examples : forall ck,
+  (exists obs, execute LX ck default_config (s "en") (s "0b1011") = Ok {| er_status := true; er_lines := [Some obs] |}
+               /\ lo_result obs = LOk (s "0b1011") (AItem (INumber 11%float Binary))) /\
+  (exists obs, execute LX ck default_config (s "tr") (s "0o777") = Ok {| er_status := true; er_lines := [Some obs] |}
+               /\ lo_result obs = LOk (s "0o777") (AItem (INumber 511%float Octal))) /\
+  (exists obs, execute LX ck default_config (s "en") (s "0x2024") = Ok {| er_status := true; er_lines := [Some obs] |}
+               /\ lo_result obs = LOk (s "0x2024") (AItem (INumber 8228%float Hexadecimal))).
+Proof. exact based_instances. Qed.
+
+Print Assumptions C13_based_text_to_value.
+Print Assumptions C13_based_text_to_value_examples.
 Print Assumptions C13_digit_read.
 Print Assumptions C13_digit_alphabet.
 Print Assumptions C13_read_positional.
